@@ -7,6 +7,9 @@ Implementation under test (all real, in-process):
   * kind "fix":    `record_processing.fix_record_name_id` on one record with a given id set
                    (reaches `_shorten_ids` and its three regular expressions directly)
   * kind "unique": `record_processing.generate_unique_id`
+  * kind "bio":    `Record.from_biopython` on a biopython SeqRecord with gene / CDS SeqFeatures (identifiers in the
+                   qualifiers, as read from a GenBank file): `CDSFeature.from_biopython`, `Gene.from_biopython`,
+                   `pop_locus_qualifier`, `add_biopython_feature`, rejection of the whole record
   * kind "genes":  a sequence of `Record.add_gene` / `Record.add_cds_feature` calls with real
                    `CDSFeature`s (whose constructor runs `_sanitise_id_value`)
 """
@@ -114,6 +117,11 @@ class C16(Property):
              ("antismash/common/secmet/record.py", "Record.get_cds_by_name"),
              ("antismash/common/secmet/features/feature.py", "Feature.overlaps_with"),
              ("antismash/common/secmet/features/gene.py", "Gene.__init__"),
+             ("antismash/common/secmet/features/gene.py", "Gene.from_biopython"),
+             ("antismash/common/secmet/features/cds_feature.py", "CDSFeature.from_biopython"),
+             ("antismash/common/secmet/features/feature.py", "pop_locus_qualifier"),
+             ("antismash/common/secmet/record.py", "Record.from_biopython"),
+             ("antismash/common/secmet/record.py", "Record.add_biopython_feature"),
              ("antismash/common/secmet/features/gene.py", "Gene.get_name"),
              ("antismash/common/secmet/record.py", "Record.add_cds_feature"),
              ("antismash/common/secmet/record.py", "Record.add_gene"),
@@ -273,7 +281,8 @@ class C16(Property):
 
     GENE_NAMES = ["a", "a:b", "a_b", "a b", "a;b", "b", "b\t", "b_", "", "c"]
     GENE_LOCS = [[[10, 40, 1]], [[10, 40, -1]], [[20, 50, 1]], [[40, 70, 1]], [[100, 130, 1]], [[39, 60, 1]],
-                 [[10, 25, 1], [30, 40, 1]], [[60, 90, -1]], [[10, 40, 1], [100, 130, 1]], [[200, 260, 1]]]
+                 [[10, 25, 1], [30, 40, 1]], [[60, 90, -1]], [[10, 40, 1], [100, 130, 1]], [[200, 260, 1]],
+                 [[18, 45, 1]]]    # crc32("[18:45](+)") = 0x0cdea4e3: a checksum with a leading zero nibble
 
     def gen_genes_case(self, rng: random.Random) -> Dict[str, Any]:
         ops = []
@@ -307,6 +316,39 @@ class C16(Property):
                 op["protein_id"] = rng.choice(names)
             ops.append(op)
         return {"kind": "genes", "ops": ops}
+
+    BIO_NAMES = ["a", "a b", "ab", "a:b", "a_b", " ", "", "b", "g 1", "g1", "cds10_40", "gene10_40"]
+
+    def gen_bio_case(self, rng: random.Random) -> Dict[str, Any]:
+        """a record as read from a file: gene and CDS features with identifier qualifiers"""
+        feats = []
+        names = rng.sample(self.BIO_NAMES, rng.choice([2, 3, 4]))
+        locs = rng.sample(self.GENE_LOCS, rng.choice([2, 3, 4, 6]))
+        if rng.random() < 0.3:
+            base = rng.choice([n for n in names if n.strip()] or ["a"]).replace(" ", "")
+            parts = rng.choice(locs)
+            crc = f"{zlib.crc32(loc_str({'c': len(parts) > 1, 'parts': parts}).encode('utf-8')):x}"
+            names.append(f"{sanitised(base)}_{crc}")
+        for _ in range(rng.choice([1, 2, 3, 4, 5, 6])):
+            parts = rng.choice(locs)
+            feat: Dict[str, Any] = {"cds": rng.random() < 0.75, "loc": {"c": len(parts) > 1, "parts": parts},
+                                    "locus_tag": None, "gene": None, "protein_id": None, "pseudo": False}
+            r = rng.random()
+            if r < 0.5:
+                feat["locus_tag"] = rng.choice(names)
+            elif r < 0.65:
+                feat["gene"] = rng.choice(names)
+            elif r < 0.75:
+                feat["protein_id"] = rng.choice(names)
+            elif r < 0.9:
+                pass    # no identifier at all: named after its position
+            else:
+                feat["locus_tag"] = rng.choice(names)
+                feat["gene"] = rng.choice(names)
+                feat["protein_id"] = rng.choice(names)
+            feat["pseudo"] = rng.random() < 0.15
+            feats.append(feat)
+        return {"kind": "bio", "feats": feats}
 
     SMALL_IDS = ["", "a", ":", ".", "1", "a:", ":a", "a.", "a1", "a:1", "a_0", "a_1", "_0", "a:_0", "a;",
                  "contig1234567.abcdefghijklmnop", "contig1234567.abcdefghijklmno:", "c1234567_conti..",
@@ -373,10 +415,12 @@ class C16(Property):
             yield self.gen_unique_boundary_case(rng)
             for _ in range(5):
                 yield self.gen_genes_case(rng)
+            for _ in range(3):
+                yield self.gen_bio_case(rng)
             if block % 10 == 0:
                 yield self.gen_fix_exhaustion_case(rng)
-            if block % (125 * mult) == 3:
-                yield self.gen_exhaustion_ids_case(rng)      # ~1000 records each: four per run
+            if block % (125 * mult // (3 if deep else 1)) == 3:
+                yield self.gen_exhaustion_ids_case(rng)      # ~1000 records each: 4 per quick run, 12 per deep run
         if deep:
             yield from self.small_scope(rng, full=(tier == "thorough"))
 
@@ -477,6 +521,29 @@ class C16(Property):
             index_ok = (by_name == sorted(f.get_name() for f in feats)
                         and all(record.get_cds_by_name(f.get_name()) is f for f in feats))
             return {"ops": outs, "cdss": cdss, "index_ok": index_ok, "rejected_untouched": untouched}
+        if kind == "bio":
+            from Bio.SeqFeature import SeqFeature
+            from Bio.SeqRecord import SeqRecord
+            bio = SeqRecord(Seq("ATG" + "GCA" * 100), id="rec", name="rec")
+            bio.annotations["molecule_type"] = "DNA"
+            for feat in case["feats"]:
+                quals = {key: [feat[key]] for key in ("locus_tag", "gene", "protein_id") if feat[key] is not None}
+                if feat["cds"]:
+                    quals["translation"] = ["MA"]
+                if feat["pseudo"]:
+                    quals["pseudo"] = [""]
+                bio.features.append(SeqFeature(common.make_location(feat["loc"]), type="CDS" if feat["cds"] else "gene",
+                                               qualifiers=quals))
+            try:
+                record = Record.from_biopython(bio, "bacteria")
+            except Exception as exc:  # pylint: disable=broad-except
+                return self._map_err(exc)
+            feats = record.get_cds_features()
+            by_name = sorted(record._cds_by_name)          # pylint: disable=protected-access
+            index_ok = (by_name == sorted(f.get_name() for f in feats)
+                        and all(record.get_cds_by_name(f.get_name()) is f for f in feats))
+            return {"cdss": [[f.get_name(), common.location_json(f.location)] for f in feats],
+                    "genes": [g.get_name() for g in record.get_genes()], "index_ok": index_ok}
         raise ValueError(f"unknown case kind {kind}")
 
     def driver_line(self, case: Dict[str, Any], obs: Dict[str, Any]) -> Optional[Dict[str, Any]]:
@@ -491,6 +558,8 @@ class C16(Property):
         if kind == "unique":
             return {"kind": kind, "prefix": case["prefix"], "taken": case["taken"], "start": case["start"],
                     "max_length": case["max_length"], "impl": obs.get("name")}
+        if kind == "bio":
+            return {"kind": kind, "feats": case["feats"], "impl": obs.get("cdss")}
         return {"kind": kind, "ops": case["ops"], "impl": obs.get("cdss")}
 
     # ------------------------------------------------------------------ judge
@@ -561,6 +630,22 @@ class C16(Property):
                 if 0 < case["max_length"] == len(obs["name"]):
                     tags.append("at-length-limit")
             nontrivial = bool(case["taken"])
+        elif kind == "bio":
+            if "err" in obs:
+                corr = model.get("err") == obs["err"]
+                tags.append("rejected:" + obs["err"])
+                nontrivial = True
+                spec_ok = obs["err"] in ("dup-location", "dup-name")     # the record is rejected as bad input
+                detail = "" if spec_ok else f"unexpected rejection {obs}"
+            else:
+                corr = ("cdss" in model and sorted_cdss(model["cdss"]) == sorted_cdss(obs["cdss"])
+                        and model["genes"] == obs["genes"])
+                spec_ok = bool(spec and spec["ok"]) and obs["index_ok"]
+                if not spec_ok:
+                    detail = f"spec {spec} index_ok={obs['index_ok']} on {obs['cdss']}"
+                given = {f[k] for f in case["feats"] for k in ("locus_tag", "gene", "protein_id") if f[k]}
+                nontrivial = any(c[0] not in given for c in obs["cdss"])
+                tags.append("renamed-or-sanitised" if nontrivial else "as-given")
         else:
             corr = model["ops"] == obs["ops"] and sorted_cdss(model["cdss"]) == sorted_cdss(obs["cdss"])
             errs = [o["err"] for o in obs["ops"] if isinstance(o, dict) and "err" in o]
@@ -634,6 +719,14 @@ class C16(Property):
         elif kind == "unique":
             for i in range(len(case["taken"])):
                 yield dict(case, taken=case["taken"][:i] + case["taken"][i + 1:])
+        elif kind == "bio":
+            feats = case["feats"]
+            for i in range(len(feats)):
+                yield dict(case, feats=feats[:i] + feats[i + 1:])
+            for i, feat in enumerate(feats):
+                for key in ("locus_tag", "gene", "protein_id"):
+                    if feat[key] is not None and sum(feat[k] is not None for k in ("locus_tag", "gene", "protein_id")) > 1:
+                        yield dict(case, feats=feats[:i] + [dict(feat, **{key: None})] + feats[i + 1:])
         else:
             ops = case["ops"]
             for i in range(len(ops)):
